@@ -158,7 +158,7 @@ def _gen_load(rng):
         how = rng.choice(["cli_dimacs", "cli_dimacs_stdin",
                           "cnfshuffle_identity",
                           "cnfshuffle_identity_stdin"])
-    return {"how": how,
+    return {"how": how, "newline": rng.choice([None, "\n", ""]),
             "chunk": rng.choice([None, None, 1, 2, 3, 5, 7])}
 
 
@@ -173,7 +173,17 @@ def _valid_text(rng):
             lines.append(" ".join(toks[k:]))
         else:
             lines.append(" ".join(toks))
-    return "\n".join(lines) + "\n"
+    if rng.random() < 0.5:
+        lines.insert(rng.randrange(2, len(lines) + 1), "c a note")
+    # line ends: unix, dos, old mac, a mixture (files travel)
+    r = rng.random()
+    if r < 0.75:
+        return "\n".join(lines) + "\n"
+    if r < 0.82:
+        return "\r\n".join(lines) + "\r\n"
+    if r < 0.88:
+        return "\r".join(lines) + "\r"
+    return "".join(l + rng.choice(["\n", "\n", "\r\n", "\r"]) for l in lines)
 
 
 def generate(rng, config):
@@ -194,7 +204,8 @@ def generate(rng, config):
             texts.append(t)
         return {"texts": texts, "load": _gen_load(rng), "faults": []}
     if config == "text":
-        return {"text": _gen_text(rng), "load": _gen_load(rng), "faults": []}
+        return {"text": _valid_text(rng) if rng.random() < 0.25
+                else _gen_text(rng), "load": _gen_load(rng), "faults": []}
     case = {"formula": _gen_family(rng) if rng.random() < 0.3
             else _gen_formula(rng),
             "store": _gen_store(rng), "load": _gen_load(rng), "faults": []}
@@ -222,7 +233,8 @@ TOKENS = ["p", "cnf", "c", "0", "1", "-1", "2", "-2", "3", "-3", "4", "\n",
           "\n", "\n", " ", "\t", "p cnf", "p cnf 2 1\n", "p cnf 3 2\n", "00",
           "-0", "+1", "1_0", "x", "-", "%", "\r\n", "\r", "٣", "1.0",
           "c x\n", "pcnf", "99", "-99", "\x0c", " ", "0\n", " 0\n",
-          "\x1c", "1\x1c2", "\u2028", "\x85", "\x1f0", "2\u20283"]
+          "\x1c", "1\x1c2", "\u2028", "\x85", "\x1f0", "2\u20283", "c x\r",
+          "c\r", "\r"]
 
 
 def _gen_text(rng):
@@ -333,7 +345,14 @@ def _load(data, ld, fs, ctx, name="in.cnf", plan_extra=None):
     if how == "file":
         fs.put(name, data, plan=plan)
         return call(CNF.from_file, name)
-    stream = text_reader(data, name=name, plan=plan, on_fire=ctx.fault)
+    # which characters end a line is a property of the stream: universal
+    # newlines for open(), LF alone for the standard input of a POSIX
+    # process and for io.StringIO
+    newline = ld.get("newline") if how == "stream" else "\n"
+    stream = text_reader(data, name=name, plan=plan, on_fire=ctx.fault,
+                         newline=newline)
+    if newline is not None:
+        ctx.fault("stream_without_universal_newlines")
     if how == "stream":
         return call(CNF.from_file, stream)
     saved = sys.stdin
